@@ -259,8 +259,7 @@ def tr_tail(tree):
         else:
             raise Unsupported("assignment " + src)
         k -= 1
-    if sorted(names.values()) != ["s12", "s21"]:
-        raise Unsupported("expected the two issubclass tests before the final chain")
+    # (the tests may also be written inline in the conditions)
 
     def cond(e):
         if isinstance(e, ast.Name) and e.id in names:
